@@ -22,8 +22,9 @@ MANIFEST_ENTRY = {
     "technique": "Coq proof over a hand-written executable model + differential correspondence check (vm_compute) + property oracle",
     "design_ref": "DESIGN.md 4/C18",
 }
-ANCHOR_RANGES = [("jsonrpclib/jsonrpc.py", 263, 288), ("jsonrpclib/jsonrpc.py", 290, 331), ("jsonrpclib/jsonrpc.py", 389, 413),
-                 ("jsonrpclib/jsonrpc.py", 733, 750), ("jsonrpclib/jsonrpc.py", 611, 612)]
+# line ranges in the repaired tree: stack + push/pop, emit_additional_headers, send_content, ServerProxy ctor push, _additional_headers
+ANCHOR_RANGES = [("jsonrpclib/jsonrpc.py", 263, 288), ("jsonrpclib/jsonrpc.py", 290, 327), ("jsonrpclib/jsonrpc.py", 385, 409),
+                 ("jsonrpclib/jsonrpc.py", 607, 608), ("jsonrpclib/jsonrpc.py", 724, 744)]
 RULE = ("programs = (URL user-info or not, content type / user agent default or custom, constructor headers, a well-nested "
         "sequence of enter(dict) / leave(normal|exception) / request(call|notification|batch) events): every stack of <= 2 "
         "dictionaries with <= 2 entries over 13 names (three spellings of a custom name and of User-Agent, Content-Type x2, "
